@@ -93,6 +93,9 @@ def run(tier):
                     if a["s"] == ord("h"):
                         a["s"] = ord("H")
                 cfg.update({"usagehidden": g.r.random() < 0.4, "usagedepr": False, "usageshort": False, "usagelong": False, "help": True})
+                # (this handler knows -h / --help, the evaluation specification does not: only the valid lines are kept for it, the
+                # rule-breaking edits - an "unknown" key may be -h - would print the usage and end the process)
+                acts = [x for x in acts if x["tag"]["k"] == "line"]
                 ua = [{"n": "Usage", "via": "help", "argv": [T("-h")]}, {"n": "Usage", "via": "stream", "argv": []}, {"n": "Usage", "via": "help", "argv": [T("--help")]}]
                 acts = [x for k, act in enumerate(acts) for x in ([act] + ([ua[k % 3]] if k % 3 == 0 else []))] + [ua[0]]
             blocks.append((cfg, acts))
